@@ -40,7 +40,7 @@ try:
 finally:
     sh("git -C %s checkout -- ." % REPO)
     assert sh("git -C %s status --short --untracked-files=no" % REPO)[1].strip() == "", "repo not clean after revert"
-tag = str(int(n) + 18) if "mut10" in mutdir else str(int(n) + 16) if "mut9" in mutdir else str(int(n) + 14) if "mut8" in mutdir else str(int(n) + 12) if "mut7" in mutdir else str(int(n) + 10) if "mut6" in mutdir else str(int(n) + 8) if "mut5" in mutdir else str(int(n) + 6) if "mut4" in mutdir else str(int(n) + 4) if "mut3" in mutdir else (str(int(n) + 2) if "mut2" in mutdir else str(n))
+tag = str(int(n) + 20) if "mut11" in mutdir else str(int(n) + 18) if "mut10" in mutdir else str(int(n) + 16) if "mut9" in mutdir else str(int(n) + 14) if "mut8" in mutdir else str(int(n) + 12) if "mut7" in mutdir else str(int(n) + 10) if "mut6" in mutdir else str(int(n) + 8) if "mut5" in mutdir else str(int(n) + 6) if "mut4" in mutdir else str(int(n) + 4) if "mut3" in mutdir else (str(int(n) + 2) if "mut2" in mutdir else str(n))
 dst = os.path.join(V, "seeded", "%s-%s" % (pid, tag))
 os.makedirs(dst, exist_ok=True)
 shutil.copy(patch, os.path.join(dst, "patch.diff"))
